@@ -21,6 +21,59 @@ ITER_DROP = ("take", "skip", "filter", "filter_map", "step_by", "take_while", "s
              "nth", "last", "map_while", "zip", "dedup", "find")
 
 
+def _listed_lexicons(E, fa, op):
+    """When the operand is the item of a loop over a list of lexicons built from `once(x)`,
+    `opt.into_iter()` and `chain` only: (block of the outer `next`, [access path of each member, in
+    order]); otherwise None. Every member of such a list is visited, in that order."""
+    pl = op_place(op)
+    nxt = None
+    for _ in range(8):
+        if pl is None:
+            return None
+        d = fa.single_def(pl["l"])
+        fields = [e for e in pl["p"] if e != "*"]
+        if fields:
+            if d is not None and d[2] == "call" and (callee_of(d[3]) or {}).get("name") == "next" and \
+                    any(isinstance(e, dict) and e.get("n") == "Some" for e in fields):
+                nxt = (d[0], d[3])
+            break
+        if d is None or d[2] != "assign":
+            return None
+        pl = op_place(d[3]["op"]) if d[3]["k"] in ("use", "cast") else d[3].get("place") if d[3]["k"] == "ref" else None
+    if nxt is None:
+        return None
+
+    def members(o, depth=0):
+        if depth > 8:
+            return None
+        p0 = op_place(o)
+        if p0 is None:
+            return None
+        d0 = fa.single_def(p0["l"]) if not [e for e in p0["p"] if e != "*"] else None
+        if d0 is None:
+            return None
+        if d0[2] == "assign":
+            nx = d0[3]["op"] if d0[3]["k"] in ("use", "cast") else {"c": d0[3]["place"]} if d0[3]["k"] == "ref" else None
+            return members(nx, depth + 1) if nx is not None else None
+        t0 = d0[3]
+        n0 = (callee_of(t0) or {}).get("name") or ""
+        if n0 == "chain" and len(t0["args"]) == 2:
+            a, b = members(t0["args"][0], depth + 1), members(t0["args"][1], depth + 1)
+            return a + b if a is not None and b is not None else None
+        if n0 in ("once",) and len(t0["args"]) == 1:
+            ap = E.ap_operand(fa, t0["args"][0])
+            return [ap] if ap is not None else None
+        if n0 in ("into_iter", "iter") and len(t0["args"]) == 1:
+            ty = fa.fn.locals[op_place(t0["args"][0])["l"]]["ty"] if op_place(t0["args"][0]) is not None else ""
+            if "Option<" in ty:
+                ap = E.ap_operand(fa, t0["args"][0])
+                return [ap] if ap is not None else None
+            return members(t0["args"][0], depth + 1)
+        return None
+    aps = members(nxt[1]["args"][0])
+    return (nxt[0], aps) if aps else None
+
+
 def _feeds(E, fa, op, depth=0):
     """The common_prefix_iterator calls whose results flow into an iterator operand, through
     chains of adaptors (also when the call sits in the closure of a flat_map over an optional
@@ -41,7 +94,16 @@ def _feeds(E, fa, op, depth=0):
             nm = (callee_of(t) or {}).get("name") or ""
             if nm == "common_prefix_iterator":
                 S = Sym(E, fa)
-                out.append(dict(lex=E.ap_operand(fa, t["args"][0]), suffix=repr(E.ap_operand(fa, t["args"][1]) or S.operand(t["args"][1])),
+                sfx_ = repr(E.ap_operand(fa, t["args"][1]) or S.operand(t["args"][1]))
+                listed = _listed_lexicons(E, fa, t["args"][0])
+                if listed is not None:
+                    # `for lexicon in user.into_iter().chain(once(system)) { for m in lexicon.common_prefix_iterator(..) {..} }`:
+                    # one search, run for every lexicon of the list in turn
+                    outer_nb, aps = listed
+                    for lap in aps:
+                        out.append(dict(lex=lap, suffix=sfx_, block=d[0], term=t, drop=list(drop), frame=fa, outer=outer_nb))
+                    break
+                out.append(dict(lex=E.ap_operand(fa, t["args"][0]), suffix=sfx_,
                                 block=d[0], term=t, drop=list(drop), frame=fa))
                 break
             if nm in ITER_DROP:
@@ -494,7 +556,11 @@ def cand(ctx):
         cb, ct = srcd["block"], srcd["term"]
         suffixes.add(srcd["suffix"])
         through = {nb}
-        if optional and srcd["frame"] is fa:
+        if srcd.get("outer") is not None:
+            # the search runs once per member of a list that always holds this lexicon (when it is
+            # there): what every path must pass is the walk over that list
+            through = {srcd["outer"]}
+        elif optional and srcd["frame"] is fa:
             ulap = E.ap_operand(fa, ct["args"][0])
             # None branch of `if let Some(user_lexicon) = self.dict.user_lexicon()`
             for b in sorted(fa.live_blocks()):
